@@ -91,6 +91,8 @@ META_QUICK = [
 
 def scenarios(family, tier, mode="th"):
     out = []
+    if family == "R":
+        return reader_scenarios(mode)
     if family == "C07":
         inst, starts, quick, menu = OBJ_INST, OBJ_STARTS, OBJ_QUICK, OBJ_MENU
     else:
@@ -189,7 +191,9 @@ def scenarios(family, tier, mode="th"):
 def reader_scenarios(mode="th"):
     """retrieve_object as a concurrent participant.  No property promises linearizable readers
     (C07 lists the four mutating calls), so these scenarios are used for step-level conformance
-    with the implementation-shaped model and for C09's intermediate states only."""
+    with the implementation-shaped model, for C09's intermediate states, and (family "R") for
+    C01's promise that a stored pid stays retrievable "whatever calls are made on other pids
+    in between": TraceLin's C01_ConcRetrieve looks only at readers of a pid nobody deletes."""
     out = []
     for start, calls in [("p1a", [C("retrieve", "p1"), C("delete", "p1")]),
                          ("p1a", [C("retrieve", "p1"), C("store", "p2", "a", "none")]),
